@@ -416,13 +416,26 @@ theorem readv_leaf (m : Mem) (hb : Bytes m) (iovs stop res ro : Nat)
   · exact optRegion_ok m res 4 hr (by decide) hs w hw
   · exact optRegion_ok m ro 2 hro (by decide) hs w hw
 
-theorem sockRecv_safe (fixed : Bool) (m : Mem) (hb : Bytes m) (fds : Fds) (fd iovs cnt fl res ro : Nat)
+theorem whole_leaf (m : Mem) : AllSafe m [{ err := Err.any, writes := [Wr.region 0 m.size] }] := by
+  intro r hr'
+  simp only [List.mem_cons, List.not_mem_nil, or_false] at hr'
+  subst hr'
+  refine safe_w m _ _ nofun ?_
+  intro w hw
+  simp only [List.mem_cons, List.not_mem_nil, or_false] at hw
+  subst hw
+  right
+  show 0 + m.size ≤ m.size
+  omega
+
+theorem sockRecv_safe (fixed fixedRead : Bool) (m : Mem) (hb : Bytes m) (fds : Fds) (fd iovs cnt fl res ro : Nat)
     (hr : res < 4294967296) (hro : ro < 4294967296) (hs : m.size < 9223372036854775808) :
-    AllSafe m (sockRecv fixed fds m fd iovs cnt fl res ro) := by
+    AllSafe m (sockRecv fixed fixedRead fds m fd iovs cnt fl res ro) := by
   unfold sockRecv
   split_all
   all_goals first
     | rE_safe
+    | exact whole_leaf m
     | exact peek_zero_leaf m res ro hr hro hs
     | exact readv_leaf m hb iovs _ res ro hr hro hs
     | exact peek_leaf m _ _ res ro (le32_lt m hb _) (le32_lt m hb _) hr hro hs (by assumption)
